@@ -229,6 +229,28 @@ def main():
             return run, rc, err, sub
         with cf.ThreadPoolExecutor(max_workers=4) as ex:
             results = list(ex.map(one, runs))
+        # a data set without any rare value: the report must be empty, not missing
+        ds0 = os.path.join(wd, 'ds0')
+        os.makedirs(ds0)
+        with open(os.path.join(ds0, 'data.csv'), 'w') as f:
+            f.write('a,b,label\n')
+            for p_ in range(1200):
+                f.write(f'{p_ % 3},{p_ % 5},{p_ % 2}\n')
+        sub0 = os.path.join(wd, 'cli_norare')
+        os.makedirs(sub0)
+        os.symlink(ds0, os.path.join(sub0, 'ds'))
+        rc0, err0 = PC.run_cli(dict(task='identify_rare_values', data_path='ds', data_source='csv-raw', minibatch_size=600, subsampling=1, heuristic='MI-numba-randomized', num_threads=1,
+                                    output_folder='out', rare_value_count_upper_bound=2), sub0)
+        p0 = os.path.join(sub0, 'out', 'rare_values.tsv')
+        if not os.path.exists(p0):
+            V.violation('rare-report-empty:cli:task=identify_rare_values no value occurs <= 2 times', f'no rare-value report was written (exit {rc0}) although the exact report is well defined (empty): {err0[-300:]}',
+                        {'rows': 1200, 'threshold': 2})
+        else:
+            with open(p0, newline='') as f:
+                body = list(csv.reader(f, delimiter='\t'))[1:]
+            if body:
+                V.violation('rare-report-empty:cli', f'rare-value report lists {body[:3]} although no value occurs <= 2 times', {'rows': 1200, 'threshold': 2})
+        V.count(evaluations=1, nontrivial=1, traces=1)
         outs = {}
         for (task, mb), rc, err, sub in results:
             key = f'cli:task={task} minibatch={mb}'
